@@ -509,7 +509,7 @@ impl Property for C13 {
         let r0 = matvec(&m0, &sol.x0);
         let s0 = matvec_abs(&m0, &sol.x0);
         for i in 0..n {
-            if (r0[i] - c0[i]).abs() > tol * (s0[i] + c0[i].abs()) + 1e-300 {
+            if !((r0[i] - c0[i]).abs() <= tol * (s0[i] + c0[i].abs()) + 1e-300) {
                 v.fail("solution does not satisfy A x = b in value", format!("row {}: A x = {:e}, b = {:e} (cond {:.1e})", i, r0[i], c0[i], cond));
                 return v;
             }
@@ -521,7 +521,7 @@ impl Property for C13 {
                 let lhs = vadd(&matvec(&m0, &sol.x1[k]), &matvec(&m1[k], &sol.x0));
                 let sc = vadd(&matvec_abs(&m0, &sol.x1[k]), &matvec_abs(&m1[k], &sol.x0));
                 for i in 0..n {
-                    if (lhs[i] - c1[k][i]).abs() > tol * (sc[i] + c1[k][i].abs() + s0[i]) + 1e-300 {
+                    if !((lhs[i] - c1[k][i]).abs() <= tol * (sc[i] + c1[k][i].abs() + s0[i]) + 1e-300) {
                         v.fail(
                             "first derivative of the solution does not satisfy the differentiated system",
                             format!("d/d{} row {}: A x' + A' x = {:e}, b' = {:e} (cond {:.1e})", VN[k], i, lhs[i], c1[k][i], cond),
@@ -539,7 +539,7 @@ impl Property for C13 {
                     for i in 0..n {
                         let lhs: f64 = t.iter().map(|x| x[i]).sum();
                         let sc: f64 = ta.iter().map(|x| x[i]).sum();
-                        if (lhs - c2[k][l][i]).abs() > tol * cond.sqrt().max(1.0) * (sc + c2[k][l][i].abs() + s0[i]) + 1e-300 {
+                        if !((lhs - c2[k][l][i]).abs() <= tol * cond.sqrt().max(1.0) * (sc + c2[k][l][i].abs() + s0[i]) + 1e-300) {
                             v.fail(
                                 "second derivative of the solution does not satisfy the twice differentiated system",
                                 format!("d2/d{}d{} row {}: lhs {:e}, rhs {:e} (cond {:.1e})", VN[k], VN[l], i, lhs, c2[k][l][i], cond),
@@ -562,13 +562,13 @@ impl Property for C13 {
                 Ok(p) => {
                     let xs = sol.x0.iter().fold(0.0f64, |m, x| m.max(x.abs()));
                     for i in 0..n {
-                        if (p.x0[i] - sol.x0[i]).abs() > tol * xs + 1e-300 {
+                        if !((p.x0[i] - sol.x0[i]).abs() <= tol * xs + 1e-300) {
                             v.fail("row order of the system changes the solution", format!("x[{}]: {:e} vs {:e} (cond {:.1e})", i, p.x0[i], sol.x0[i], cond));
                             return v;
                         }
                         for k in 0..3 {
                             let gs = sol.x1[k].iter().fold(0.0f64, |m, x| m.max(x.abs()));
-                            if (p.x1[k][i] - sol.x1[k][i]).abs() > tol * cond * (gs + xs) + 1e-300 {
+                            if !((p.x1[k][i] - sol.x1[k][i]).abs() <= tol * cond * (gs + xs) + 1e-300) {
                                 v.fail("row order of the system changes the solution's derivatives", format!("dx[{}]/d{}: {:e} vs {:e}", i, VN[k], p.x1[k][i], sol.x1[k][i]));
                                 return v;
                             }
